@@ -57,6 +57,12 @@ M = [
     ("C16", "every new key gets id 0", "src/lib/replication_ops.rs", "keys_map.insert(key.clone(), id);", "keys_map.insert(key.clone(), 0);"),
     ("C16", "next_db_id stops at a used id", "src/lib/bo.rs", "while ids.contains_key(&(id as u64)) {", "while !ids.contains_key(&(id as u64)) && id < 3 {"),
     ("C16", "id maps disagree", "src/lib/replication_ops.rs", "id_keys_map.insert(id, key.to_string());", "id_keys_map.insert(id + 1, key.to_string());"),
+    # ---- C17
+    ("C17", "use-db does not release the previous database (user-token branch)", "src/lib/process_request.rs", "                                set_connection_counter(db, &dbs);\n                                release_previous_db(previous, &dbs_map, &dbs);\n                                Response::Ok {}\n                            } else {\n                                Response::Error {\n                                    msg: \"Invalid token\".to_string(),\n                                }\n                            }\n                        }\n                        None => {", "                                set_connection_counter(db, &dbs);\n                                Response::Ok {}\n                            } else {\n                                Response::Error {\n                                    msg: \"Invalid token\".to_string(),\n                                }\n                            }\n                        }\n                        None => {"),
+    ("C17", "a refused use-db still counts a connection", "src/lib/process_request.rs", "                            } else {\n                                Response::Error {\n                                    msg: \"Invalid token\".to_string(),\n                                }\n                            }\n                        }\n                    }\n                }", "                            } else {\n                                db.inc_connections();\n                                Response::Error {\n                                    msg: \"Invalid token\".to_string(),\n                                }\n                            }\n                        }\n                    }\n                }"),
+    ("C17", "disconnect decrements twice", "src/lib/bo.rs", "                        db.dec_connections();\n                        set_connection_counter(db, &dbs);", "                        db.dec_connections();\n                        db.dec_connections();\n                        set_connection_counter(db, &dbs);"),
+    ("C17", "inc adds two", "src/lib/bo.rs", "*connections.get_mut() = *connections.get_mut() + 1;", "*connections.get_mut() = *connections.get_mut() + 2;"),
+    ("C17", "$connections written with a stale text", "src/lib/db_ops.rs", "let value = db.connections_count().to_string();\n    return set_key_value(CONNECTIONS_KEY.to_string(), value, -1, db, &dbs);", "let value = db.connections_count().to_string();\n    return set_key_value(CONNECTIONS_KEY.to_string(), String::from(\"0\"), -1, db, &dbs);"),
     # ---- C19
     ("C19", "older change wins", "src/lib/consensus_ops.rs", "if change.opp_id > old_value.opp_id {", "if change.opp_id < old_value.opp_id {"),
     ("C19", "reply names the rejected value", "src/lib/consensus_ops.rs", "                                value: old_value.value.to_string(),", "                                value: change.value.to_string(),"),
